@@ -192,12 +192,37 @@ def _whatif(spec, iface, constraints, rec):
     return {"description_edited_in_place"}
 
 
+def _restore(net, how):
+    """The same network after a trip through one of the library's own persistence paths."""
+    import copy
+    import warnings
+
+    with warnings.catch_warnings():
+        warnings.simplefilter("ignore")
+        if how == "network_json":
+            return ChargingNetwork.from_json(net.to_json())
+        if how == "simulator_json":
+            from acnportal.algorithms import UncontrolledCharging
+
+            # (a simulator without a scheduler cannot be dumped: to_json() reads scheduler.__module__)
+            return Simulator.from_json(Simulator(net, UncontrolledCharging(), EventQueue(), START, verbose=False).to_json()).network
+        if how == "deepcopy":
+            return copy.deepcopy(net)
+    return net
+
+
 def prop(spec, rec):
     net = build(spec)
+    labels = set()
+    if spec.get("restore"):
+        # a network restored from a JSON dump (its own or its simulator's) or deep-copied is still
+        # the network the property speaks about
+        net = _restore(net, spec["restore"])
+        labels.add("restored_" + spec["restore"])
+        labels.add("restored_network")
     sim = Simulator(net, None, EventQueue(), START, verbose=False)
     iface = Interface(sim)
     constraints = [dict(c) for c in spec["constraints"]]
-    labels = set()
     labels |= _compare(spec, net, iface, constraints, rec, "initial")
     for k, upd in enumerate(spec.get("updates", [])):
         new = {"name": upd["name"], "limit": upd["limit"], "coeffs": upd["coeffs"]}
@@ -367,6 +392,7 @@ def cases(draw):
             "dict_order": list(draw(st.permutations(ids))),
             "updates": updates,
             "linear_first": draw(st.booleans()),
+            "restore": draw(st.sampled_from([None, None, None, "network_json", "simulator_json", "deepcopy"])),
             "prior_lenient": draw(st.integers(0, 3)) == 0,
             "int_rows": draw(st.lists(st.sampled_from(ids), unique=True, max_size=n)),
             "whatif": draw(st.one_of(st.none(), st.none(), st.fixed_dictionaries({"kind": st.sampled_from(["coeff", "coeff", "phase"]), "row": st.integers(0, 5), "col": st.integers(0, 5), "value": st.sampled_from([0.0, 1.0, -1.0, 2.0, 0.5]), "phase": st.sampled_from([0.0, 30.0, -90.0, 150.0, 180.0])}))),
@@ -438,7 +464,7 @@ def subchecks(tier):
             prop,
             quick=3000,
             thorough=400000,
-            floors={"near_boundary": 0.144, "multi_period": 0.269, "near_boundary_linear": 0.08, "after_update": 0.1, "mixed_sign_with_phases": 0.158, "signed_schedule": 0.025, "equal_total_columns": 0.015, "int_and_float_rows": 0.08, "description_edited_in_place": 0.07, "more_than_1024_periods": 0.003},
+            floors={"near_boundary": 0.144, "multi_period": 0.269, "near_boundary_linear": 0.08, "after_update": 0.1, "mixed_sign_with_phases": 0.158, "signed_schedule": 0.025, "equal_total_columns": 0.015, "int_and_float_rows": 0.08, "description_edited_in_place": 0.07, "more_than_1024_periods": 0.003, "restored_network": 0.2},
         ),
         Given("unconstrained", unconstrained_cases(), prop_unconstrained, quick=60, thorough=3000, jobs_quick=2),
     ]
